@@ -201,8 +201,10 @@ func Generate(t *tape.Tape, o Opts) *Plan {
 			switch k {
 			case AStore:
 				a.A, a.B = int32(t.Choose(NCells)), val
-			case AStoreAcc, ALoadAcc, AStdout:
+			case AStoreAcc, ALoadAcc:
 				a.A = int32(t.Choose(NCells))
+			case AStdout:
+				a.A, a.B = int32(t.Choose(NCells)), int32(1+t.Choose(2)) // B: descriptor 1 or 2
 			case AGAdd:
 				a.A, a.B = int32(t.Choose(NGlobals)), int32(1+t.Choose(9))
 			case ACall, ATailCall:
@@ -378,7 +380,11 @@ func (p *Plan) Encode() []byte {
 			case AStdout:
 				c.I32Const(0x100).I32Const(8 * a.A).I32Store(0)
 				c.I32Const(0x104).I32Const(4).I32Store(0)
-				c.LocalGet(1).I32Const(1).I32Const(0x100).I32Const(1).I32Const(0x110).Call(l.FdWrite).I32Add().LocalSet(1)
+				fd := a.B
+				if fd != 2 {
+					fd = 1
+				}
+				c.LocalGet(1).I32Const(fd).I32Const(0x100).I32Const(1).I32Const(0x110).Call(l.FdWrite).I32Add().LocalSet(1)
 			case AOpen:
 				c.I32Const(0x130).I32Const(-1).I32Store(0)
 				c.I32Const(3).I32Const(0).I32Const(0x120).I32Const(1).I32Const(1).I64Const(0x42).I64Const(0x42).I32Const(0).I32Const(0x130).Call(l.PathOpen)
